@@ -14,9 +14,17 @@ init: `data <ws>` (vec, smallvec) · `at <ws> <pos>` / `begin <ws>` / `end <ws>`
 `fallible <script>` / `infallible <script>` (iter; script items: hex word, `x` = `Err(())`,
 `_` = a `None` hole of a non-fused iterator) · `fallible <failAt>` / `infallible` (callback).
 
+more cursor inits: `at_mut <ws> <pos>` / `end_mut <ws>` (`new_at_pos_mut`, `new_at_write_end_mut`;
+writable kinds) · `into_read_s|into_read_q|into_seek_read_s|into_seek_read_q <ws>`
+(`IntoReadWords` / `IntoSeekReadWords` on the kind's buffer type) ·
+`as_read_s|as_read_q|as_seek_read_s|as_seek_read_q <ws>` (`AsReadWords` / `AsSeekReadWords` on a
+`Vec`; gives a `Cursor<_, &[_]>`, so slice kinds only).
+
 ops: `read_s` `read_q` `write w` `extend_from_iter ws` `remaining_s` `remaining_q`
 `exhausted_s` `exhausted_q` `space_left` `full` `pos` `seek n` `into_reversed` `roundtrip`
-`raw` `bm_set ws` `bm_truncate n`.
+`raw` `bm_set ws` `bm_truncate n` · `as_view prog` `as_mut_view prog` `cloned prog` (make the
+temporary object, run `prog` on it, drop it; `prog` = `-` or comma-separated sub-ops
+`name` / `name:arg`, lists inside with `.`; output `[o1 ; o2 …]`) · `into_inner w` (callbacks).
 -/
 namespace CV.Driver.Backend
 open CV CV.Driver CV.Backend
@@ -79,11 +87,65 @@ def showOut : Out → String
   | .dump tag ws n => tag ++ " " ++ showList ws ++ " " ++ toHex n
   | .dumpItems items => if items.isEmpty then "-" else ",".intercalate (items.map showItem)
 
+def showXOut : Backend.XOut → String
+  | .one o => showOut o
+  | .many os => "[" ++ " ; ".intercalate (os.map showOut) ++ "]"
+
+/-- a sub-op of a view program: `name` or `name:arg` -/
+def parseSubOp (W : Nat) (t : String) : Option Op :=
+  match t.splitOn ":" with
+  | ["read_s"] => some .readS
+  | ["read_q"] => some .readQ
+  | ["write", w] => (parseHexB w).map (fun v => .write (narrow W v))
+  | ["extend_from_iter", ws] =>
+    if ws == "-" then some (.extend []) else
+    ((ws.splitOn ".").foldr (fun t acc => match parseHexB t, acc with
+      | some v, some l => some (narrow W v :: l)
+      | _, _ => none) (some [])).map .extend
+  | ["remaining_s"] => some .remS
+  | ["remaining_q"] => some .remQ
+  | ["exhausted_s"] => some .exhS
+  | ["exhausted_q"] => some .exhQ
+  | ["space_left"] => some .spaceLeft
+  | ["full"] => some .full
+  | ["pos"] => some .pos
+  | ["seek", n] => (parseUsize n).map .seek
+  | ["into_reversed"] => some .intoReversed
+  | ["raw"] => some .raw
+  | _ => none
+
+def parseProg (W : Nat) (s : String) : Option (List Op) :=
+  if s == "-" then some [] else
+  (s.splitOn ",").foldr (fun t acc => match parseSubOp W t, acc with
+    | some o, some l => some (o :: l)
+    | _, _ => none) (some [])
+
 /-- `some (backend, "ok")`, or `some (_, "err")` when the constructor refuses -/
 def doInit (kind : String) (W : Nat) (seg : List String) : Option (Backend × String) :=
   let dummy : Backend := .vec ⟨[]⟩
-  let cursorInit (seg : List String) : Option (Option Cursor) :=
+  let cursorInit (writable : Bool) (seg : List String) : Option (Option Cursor) :=
     match seg with
+    | ["at_mut", ws, p] => do
+        if !writable then none
+        let l ← parseWords W ws
+        let p ← parseUsize p
+        some (Cursor.newAtPosMut l p)
+    | ["end_mut", ws] => do
+        if !writable then none
+        let l ← parseWords W ws
+        some (some (Cursor.newAtWriteEndMut l))
+    | ["into_read_s", ws] => (parseWords W ws).map (fun l => some (Cursor.intoReadWordsStack l))
+    | ["into_read_q", ws] => (parseWords W ws).map (fun l => some (Cursor.intoReadWordsQueue l))
+    | ["into_seek_read_s", ws] => (parseWords W ws).map (fun l => some (Cursor.intoSeekReadWordsStack l))
+    | ["into_seek_read_q", ws] => (parseWords W ws).map (fun l => some (Cursor.intoSeekReadWordsQueue l))
+    | ["as_read_s", ws] =>
+        if writable then none else (parseWords W ws).map (fun l => some (Cursor.asReadWordsStack l))
+    | ["as_read_q", ws] =>
+        if writable then none else (parseWords W ws).map (fun l => some (Cursor.asReadWordsQueue l))
+    | ["as_seek_read_s", ws] =>
+        if writable then none else (parseWords W ws).map (fun l => some (Cursor.asSeekReadWordsStack l))
+    | ["as_seek_read_q", ws] =>
+        if writable then none else (parseWords W ws).map (fun l => some (Cursor.asSeekReadWordsQueue l))
     | ["at", ws, p] => do
         let l ← parseWords W ws
         let p ← parseUsize p
@@ -96,7 +158,7 @@ def doInit (kind : String) (W : Nat) (seg : List String) : Option (Backend × St
         some (some (Cursor.newAtWriteEnd l))
     | _ => none
   let mkCur (writable rev : Bool) : Option (Backend × String) :=
-    match cursorInit seg with
+    match cursorInit writable seg with
     | none => none
     | some none => some (dummy, "err")
     | some (some c) => some (.cur writable (if rev then .rev ⟨c⟩ else .fwd c), "ok")
@@ -129,7 +191,7 @@ def doInit (kind : String) (W : Nat) (seg : List String) : Option (Backend × St
     | _ => none
   | _ => none
 
-def parseOp (W : Nat) (b : Backend) (seg : List String) : Option Op :=
+def parseBaseOp (W : Nat) (b : Backend) (seg : List String) : Option Op :=
   match seg with
   | ["read_s"] => some .readS
   | ["read_q"] => some .readQ
@@ -154,14 +216,22 @@ def parseOp (W : Nat) (b : Backend) (seg : List String) : Option Op :=
     | none, _ => none
   | _ => none
 
+def parseOp (W : Nat) (b : Backend) (seg : List String) : Option Backend.XOp :=
+  match seg with
+  | ["as_view", pr] => (parseProg W pr).map (Backend.XOp.view .shared)
+  | ["as_mut_view", pr] => (parseProg W pr).map (Backend.XOp.view .mutable)
+  | ["cloned", pr] => (parseProg W pr).map (Backend.XOp.view .cloned)
+  | ["into_inner", w] => (parseHexB w).map (fun v => Backend.XOp.intoInnerCall (narrow W v))
+  | _ => (parseBaseOp W b seg).map Backend.XOp.base
+
 def runOps (W : Nat) : Backend → List (List String) → List String → List String
   | _, [], acc => acc.reverse
   | b, seg :: rest, acc =>
     match parseOp W b seg with
     | none => ("bad-op" :: acc).reverse
     | some op =>
-      match Backend.step b op with
-      | .ok (o, b') => runOps W b' rest (showOut o :: acc)
+      match Backend.xstep b op with
+      | .ok (o, b') => runOps W b' rest (showXOut o :: acc)
       | .error f => (faultStr f :: acc).reverse
 
 def handle (segs : List (List String)) : String :=
